@@ -628,3 +628,82 @@ def run_special_logs(rep, rule="RND.E", tol=1e-9):
             rep.instance(rule, g.ctype, inst, ok=bad is None, sample={"witness": fname, "coefficients": coeffs})
             if bad:
                 rep.violation(Finding(rule, g.ctype, inst, "%s with %s (coefficients %s): %s" % (g.ctype, inst, coeffs, bad), None, None, detail={"witness": fname}))
+
+
+def run_norm_amplification(rep, rule="R6"):
+    """R6: no operation amplifies an existing deviation from the unit-norm constraint.  With the rotation coefficients of one operand scaled by s (|q|^2 = s^2) the squared norm of the
+    result's rotation coefficients N(s^2) is read off the optimized IR (value track of the rounding domain, scaled inputs s^2 = 1 and 1 + 1e-6); the factor |dN / d(s^2)| at s = 1 must
+    not exceed 1: a factor a > 1 in an operation that can be repeated (inverse: |q|^-2 has factor 1, |q|^6 has factor 3) turns the accumulated defect eps into a^n eps after n
+    operations, against the property's linear bound (n + 1) 1e-14.  Normalising operations have factor 0, composition factor 1 in each operand."""
+    import irw
+    rep.rule(rule, "norm-defect amplification |dN_out / dN_in| <= 1 for inverse, composition (each operand), *= and rplus on SO2 / SO3 / SE2 / SE3 (optimized IR)", minimum=12)
+    W = irw.IRW("rnd_amp", groups.PRELUDE, chunk=4)
+    gs = [g for g in groups.catalogue("quick") if g.key in ("SO2d", "SO3d", "SE2d", "SE3d")]
+    ops = {
+        "inverse": ("const double* p0, double* o1", "  smooth::Map<const GT> a(p0);\n  Eigen::Map<Eigen::Matrix<double, GT::RepSize, 1>> m1(o1);\n  m1 = a.inverse().coeffs();", [0]),
+        "composition": ("const double* p0, const double* p1, double* o1",
+                        "  smooth::Map<const GT> a(p0), b(p1);\n  Eigen::Map<Eigen::Matrix<double, GT::RepSize, 1>> m1(o1);\n  m1 = (a * b).coeffs();", [0, 1]),
+        "operator*=": ("const double* p0, const double* p1, double* o1",
+                       "  smooth::Map<const GT> a(p0), b(p1);\n  GT x = a;\n  x *= b;\n  Eigen::Map<Eigen::Matrix<double, GT::RepSize, 1>> m1(o1);\n  m1 = x.coeffs();", [0, 1]),
+        "rplus": ("const double* p0, const double* p1, double* o1",
+                  "  smooth::Map<const GT> a(p0);\n  Eigen::Map<const Eigen::Matrix<double, GT::Dof, 1>> t(p1);\n  Eigen::Map<Eigen::Matrix<double, GT::RepSize, 1>> m1(o1);\n  m1 = (a + t).coeffs();", [0]),
+    }
+    for g in gs:
+        for nm, (sig, body, scaled) in ops.items():
+            W.add("amp_%s_%s" % (g.key, re.sub(r"\W", "", nm) or "muleq"), sig, "  using GT = %s;\n%s" % (g.ctype, body), g=g, op=nm, scaled=scaled, nin=sig.count("const double*"))
+    facts = W.build()
+    rep.unit("%d amplification witnesses" % len(W.wits))
+    NE.U = 2.0 ** -53
+    units = {2: [(0.6, 0.8), (-0.28, 0.96)], 4: [(0.5, 0.5, 0.5, 0.5), (0.36, 0.48, 0.8, 0.0)]}
+    fill = [1.5, -2.0, 0.75, 0.3, -0.5, 1.25, 0.2]
+    delta = 1e-6
+    for fname, (ff, meta, mod) in sorted(facts.items()):
+        g, nm = meta["g"], meta["op"]
+        (ro, rn), _ = ROT_LAYOUT[g.key]
+        for which in meta["scaled"]:
+            worst = 0.0
+            broke = None
+            for s2 in (1.0, 1.0 + delta):
+                pass
+            vals = []
+            for s2 in (1.0, 1.0 + delta):
+                s = math.sqrt(s2)
+                inputs = {}
+                for p in range(meta["nin"]):
+                    tangent = (nm == "rplus" and p == 1)
+                    n = g.dof if tangent else g.rep
+                    v = [fill[(i + 2 * p) % len(fill)] * (0.3 if tangent else 1.0) for i in range(n)]
+                    if not tangent:
+                        u = units[rn][p % 2]
+                        v[ro:ro + rn] = [x * (s if p == which else 1.0) for x in u]
+                    for i in range(n):
+                        inputs["x%d_%d" % (p, i)] = v[i]
+                try:
+                    ev = RndEval(ff, lambda p, off, ty, nin=meta["nin"]: ("x%d_%d" % (p, off // 8)) if p < nin else None, inputs)
+                    orig = ev._run_path
+
+                    def run_path(dec, ev=ev, orig=orig):
+                        ev._dec_proxy = dec
+                        return orig(dec)
+                    ev._run_path = run_path
+                    st = ev.run()[0]["stores"]
+                except (poly.Unsupported, ir.Unresolved) as ex:
+                    broke = str(ex)
+                    break
+                out = [st.get((meta["nin"], 8 * k)) for k in range(g.rep)]
+                if any(c is None for c in out):
+                    broke = "an output coefficient is not written"
+                    break
+                vals.append(sum(out[ro + i].v ** 2 for i in range(rn)))
+            inst = "%s, operand %d" % (nm, which)
+            if broke:
+                rep.broke("%s: %s %s: %s" % (rule, g.ctype, inst, broke))
+                continue
+            amp = abs(vals[1] - vals[0]) / delta
+            ok = amp <= 1.0 + 1e-3
+            rep.instance(rule, g.ctype, inst, ok=ok, sample={"witness": fname, "amplification": amp})
+            if not ok:
+                rep.violation(Finding(rule, g.ctype, inst,
+                                      "%s of %s: a deviation eps of operand %d's rotation coefficients from unit norm (|q|^2 = 1 + eps) comes out as %.3g eps in the result: every such operation multiplies "
+                                      "the accumulated defect, so it grows geometrically with the number of operations instead of staying within (n + 1) 1e-14 (e.g. conj(q) |q|^2 in place of "
+                                      "conj(q) / |q|^2)" % (nm, g.ctype, which, amp), None, None, detail={"witness": fname}))
